@@ -611,4 +611,174 @@ theorem reads_args : ∀ (args : List Tok) (prev : Option (TT × List Char)) (F 
 end
 
 
+/-! ## the values of a declaration -/
+
+theorem stopStr_head_ne_star (k : List Char) (h : stopStr k = true) : k.head? ≠ some '*' := by
+  cases k with
+  | nil => simp
+  | cons c r =>
+    have := (stopStr_cons h).1.star
+    simpa using this
+
+theorem isSlash_data (t : Tok) (ht : tokOk t = true) (hs : isSlash t = true) : t.tt = .delim ∧ t.data = ['/'] := by
+  match t with
+  | .mk tt data args =>
+    simp only [isSlash, Tok.tt, Tok.data, Bool.and_eq_true, beq_iff_eq] at hs ⊢
+    obtain ⟨h1, h2⟩ := hs
+    subst h1
+    have hl : data.length = 1 := by
+      simp [tokOk, punctOk] at ht; exact ht.2
+    match data, hl, h2 with
+    | [c], _, h2 => simp at h2; subst h2; exact ⟨rfl, rfl⟩
+
+theorem comma_data (t : Tok) (ht : tokOk t = true) (hs : t.tt = .comma) : t.data = [','] := by
+  match t with
+  | .mk tt data args =>
+    simp only [Tok.tt] at hs
+    subst hs
+    simp [tokOk, punctOk] at ht
+    exact ht.2
+
+theorem space_stop (X : List Char) : stopStr (' ' :: X) = true := by
+  simp [stopStr, U, isName, isNameStart, isDigit, isNl]
+
+/-- what `writeVals` puts behind a value may follow it -/
+theorem folOk_top (t : Tok) (r : List Tok) (k : List Char) (ht : tokOk t = true) (hw : t.tt ≠ .whitespace)
+    (hr : valsOk r = true) (hk : stopStr k = true) :
+    folOk t (writeVals (some t) (sepAfter t) r ++ k) := by
+  cases r with
+  | nil =>
+    simp only [writeVals, List.nil_append]
+    rcases tokOk_class t ht with hc | hc | hc
+    · exact Or.inl ⟨hc, fun _ _ => stopStr_head_ne_star k hk⟩
+    · exact absurd hc hw
+    · exact Or.inr (Or.inr ⟨hc, hk⟩)
+  | cons u r' =>
+    simp only [valsOk, List.all_cons, Bool.and_eq_true, bne_iff_ne, ne_eq] at hr
+    obtain ⟨⟨hu, huw⟩, _⟩ := hr
+    obtain ⟨hune, _⟩ := tokOk_head u hu
+    have hh := writeArg_head u (writeVals (some u) (sepAfter u) r' ++ k) hune
+    simp only [writeVals]
+    by_cases hsa : sepAfter t = true
+    · -- comma, slash, function, url: self-delimited
+      have hsd : selfDelim t = true := by
+        simp only [sepAfter, Bool.or_eq_true, beq_iff_eq] at hsa
+        rcases hsa with ((h | h) | h) | h
+        · simp [selfDelim, h]
+        · obtain ⟨h1, h2⟩ := isSlash_data t ht h
+          simp [selfDelim, h1, h2]
+        · simp [selfDelim, h]
+        · simp [selfDelim, h]
+      refine Or.inl ⟨hsd, ?_⟩
+      intro hd hdd
+      simp only [hsa, Bool.not_true, Bool.false_and, Bool.false_eq_true, if_false, hd, beq_self_eq_true, Bool.true_and]
+      by_cases hg : opensComment t.data u.data = true
+      · simp [hg]
+      · simp only [hg, Bool.false_eq_true, if_false, List.nil_append, List.append_assoc]
+        rw [hh.1]
+        intro hstar
+        apply hg
+        simp [opensComment, hdd, hstar]
+    · have hsa' : sepAfter t = false := by simpa using hsa
+      have hcl : selfDelim t = true ∨ isPlain t.tt = true := by
+        rcases tokOk_class t ht with hc | hc | hc
+        · exact Or.inl hc
+        · exact absurd hc hw
+        · exact Or.inr hc
+      have hnd : ¬ (t.tt = .delim ∧ t.data = ['/']) := by
+        intro hh2
+        have : isSlash t = true := by simp [isSlash, hh2.1, hh2.2]
+        simp [sepAfter, this] at hsa'
+      simp only [hsa', Bool.not_false, Bool.true_and]
+      by_cases hcs : (u.tt != .comma && !isSlash u) = true
+      · simp only [hcs, if_true, List.cons_append, List.nil_append]
+        rcases hcl with hc | hc
+        · exact Or.inl ⟨hc, fun _ _ => by simp⟩
+        · exact Or.inr (Or.inr ⟨hc, space_stop _⟩)
+      · have hcs' : (u.tt != .comma && !isSlash u) = false := by simpa using hcs
+        simp only [hcs', Bool.false_eq_true, if_false]
+        -- `u` is a comma or a slash: no guard space (its lexeme does not start with `*`)
+        have hud : u.data = [','] ∨ u.data = ['/'] := by
+          simp only [Bool.and_eq_false_iff, bne_eq_false_iff_eq, Bool.not_eq_false'] at hcs'
+          rcases hcs' with h | h
+          · exact Or.inl (comma_data u hu h)
+          · exact Or.inr (isSlash_data u hu h).2
+        have hng : (t.tt == .delim && opensComment t.data u.data) = false := by
+          rcases hud with h | h <;> simp [opensComment, h]
+        simp only [hng, Bool.false_eq_true, if_false, List.nil_append, List.append_assoc]
+        have hstop : stopStr (writeArg u ++ (writeVals (some u) (sepAfter u) r' ++ k)) = true := by
+          match u, hud with
+          | .mk utt udata uargs, hud =>
+            simp only [Tok.data] at hud
+            rcases hud with h | h <;> subst h <;>
+              simp [writeArg, stopStr, U, isName, isNameStart, isDigit, isNl]
+        rcases hcl with hc | hc
+        · refine Or.inl ⟨hc, fun h1 h2 => absurd ⟨h1, h2⟩ hnd⟩
+        · exact Or.inr (Or.inr ⟨hc, hstop⟩)
+
+/-- the values of a declaration as `writeVals` separates them -/
+theorem reads_vals : ∀ (vs : List Tok) (prev : Option Tok) (prevSep : Bool) (k : List Char),
+    valsOk vs = true → stopStr k = true →
+    Reads (writeVals prev prevSep vs) k (significant (flatArgs vs)) := by
+  intro vs
+  induction vs with
+  | nil => intro _ _ k _ _; simp only [writeVals, flatArgs]; exact Reads.nil k
+  | cons t r ih =>
+    intro prev prevSep k hv hk
+    have hv' := hv
+    simp only [valsOk, List.all_cons, Bool.and_eq_true, bne_iff_ne, ne_eq] at hv'
+    obtain ⟨⟨ht, hw⟩, hr⟩ := hv'
+    have hr' : valsOk r = true := hr
+    obtain ⟨hne, hhw⟩ := tokOk_head t ht
+    have hfol := folOk_top t r k ht hw hr' hk
+    have r2 := reads_arg t _ ht hfol
+    have r3 := ih (some t) (sepAfter t) k hr' hk
+    have r23 := Reads.append r2 r3
+    simp only [writeVals, flatArgs, significant_append]
+    -- the separator is one space or nothing
+    have hsp : ∀ g : List Char, g = [' '] ∨ g = [] →
+        Reads (g ++ (writeArg t ++ writeVals (some t) (sepAfter t) r)) k
+          (significant (flatTok t) ++ significant (flatArgs r)) := by
+      intro g hg
+      rcases hg with hg | hg
+      · subst hg
+        have r1 : Reads [' '] ((writeArg t ++ writeVals (some t) (sepAfter t) r) ++ k)
+            (significant [(.whitespace, [' '])]) := by
+          apply Reads.tok [' '] _ .whitespace (by simp)
+          intro n _
+          apply next_ws
+          have := (writeArg_head t (writeVals (some t) (sepAfter t) r ++ k) hne).2
+          simp only [List.append_assoc, List.append_eq, List.nil_append] at this ⊢
+          rw [this]
+          exact hhw hw
+        have := Reads.append r1 r23
+        simpa [significant] using this
+      · subst hg; simpa using r23
+    rw [List.append_assoc]
+    apply hsp
+    by_cases c : (!prevSep && t.tt != .comma && !isSlash t) = true
+    · simp [c]
+    · simp only [c, Bool.false_eq_true, if_false]
+      cases prev with
+      | none => exact Or.inr rfl
+      | some p =>
+        simp only []
+        by_cases c2 : (p.tt == .delim && opensComment p.data t.data) = true
+        · simp [c2]
+        · simp [c2]
+
+/-- `!important` in front of a stop string -/
+theorem reads_important (k : List Char) (hk : stopStr k = true) :
+    Reads (S "!important") k [(.delim, ['!']), (.ident, S "important")] := by
+  have e : S "!important" = ['!'] ++ S "important" := rfl
+  rw [e]
+  have r1 : Reads ['!'] (S "important" ++ k) (significant [(.delim, ['!'])]) :=
+    Reads.tok ['!'] _ .delim (by simp) (fun n _ => next_bang _ n)
+  have hl : lexOk .ident (S "important") = true := by decide
+  have r2 : Reads (S "important") k (significant [(.ident, S "important")]) :=
+    Reads.tok _ k .ident (by decide) (fun n hn => next_plain .ident _ k hl (by decide) hk n hn)
+  have := Reads.append r1 r2
+  simpa [significant] using this
+
+
 end Verif.Proofs.C09Css
